@@ -35,7 +35,10 @@ ASSUMPTIONS = ["for fixed data a blank-only cell in a field that may be empty is
 TYPES = {
     "Integer": ("", "12"), "Decimal": ("", "1.5"), "Choice": ("ab, 12, abc", "ab"), "Constant": ("ab", "ab"),
     "DateTime": ("DD.MM.YY", "01.02.03"), "Pattern": ("?*", "abc"), "RegEx": (".+", "abc"), "Text": ("", "abc"),
+    # the same types with a rule that bounds the value: the length guard counts characters, whatever the rule says
+    "Integer:bounded": ("0...999", "12"), "Decimal:bounded": ("0...999.5", "1.5"),
 }
+SPELLINGS = ["0042", "+12", "00000012", "012", "-0", "1_2", "12.0", "1.50", "0001.5", "+1.5"]
 LENGTHS = [None, [[2, 2]], [[3, 3]], [[2, None]], [[None, 3]], [[1, 2], [8, 8]]]
 ALLOWED = [None, [[32, 126]], [[46, 57], [97, 122]], [[0, 97]]]    # the last one excludes letters of the good values
 FORMATS = ["delimited", "fixed", "excel", "ods"]
@@ -54,10 +57,10 @@ def build_field(fmt, ftype, empty, length, allowed, late=False):
         rows.append(["D", "Allowed characters", "0..."])
         good = TYPES[ftype][1]
         fits = (len(good) <= length[0][0]) if fmt == "fixed" else (length is None or any((lo is None or lo <= len(good)) and (hi is None or len(good) <= hi) for lo, hi in length))
-        if ftype == "Decimal" and fmt == "fixed":
+        if ftype.startswith("Decimal") and fmt == "fixed":
             fits = False
         example = good if fits else ""
-    rows.append(["F", "f", example, "X" if empty else "", V.items_text(length), ftype, rule])
+    rows.append(["F", "f", example, "X" if empty else "", V.items_text(length), ftype.split(":")[0], rule])
     if allowed is not None and late:
         rows.append(["D", "Allowed characters", V.items_text(allowed)])
     cid = interface.Cid()
@@ -136,7 +139,7 @@ def direct_oracle(inp, obs):
             return "accepted empty cell did not yield the type's empty value"
         return None
     too = (len(cell) > length[0][0]) if (fmt == "fixed" and length is not None) else not inside(length, len(cell))
-    if ftype == "Decimal" and fmt != "fixed":
+    if ftype.startswith("Decimal") and fmt != "fixed":
         too = not inside(length, len(cell))
     if too and (obs["ok"] or obs["calls"]):
         return "cell %r of length %d outside the declared length was accepted or reached the type's rule" % (cell, len(cell))
@@ -151,6 +154,8 @@ def gen_inputs(tier, rnd):
         for length in lengths:
             good = TYPES[ftype][1]
             cells = ["", good, good[:1], good + "x" * 9] + BLANKS
+            if ftype.split(":")[0] in ("Integer", "Decimal"):
+                cells += SPELLINGS     # other spellings of numbers the rule accepts: longer or shorter than the value
             for p in range(len(good)):
                 cells.append(good[:p] + "~" + good[p + 1:])
                 cells.append(good[:p] + "\x7f" + good[p:])
